@@ -1490,9 +1490,14 @@ func execC17(raw json.RawMessage, wantLog bool) (out Outcome) {
 			s.runFor(2 * time.Second)
 		}
 		// per partition the range of Len over the replicas loaded right now (lagging joiner scenario)
+		type rg struct {
+			lo, hi uint64
+			who    string // which nodes have the partition loaded
+		}
+		var lastRange map[uuid.UUID]*rg
 		replicaRange := func() (lo, hi uint64, n int) {
-			type rg struct{ lo, hi uint64 }
 			now := map[uuid.UUID]*rg{}
+			defer func() { lastRange = now }()
 			for _, m := range s.nodes {
 				if !m.alive || m.parts == nil {
 					continue
@@ -1504,8 +1509,9 @@ func execC17(raw json.RawMessage, wantLog bool) (out Outcome) {
 						}
 						x := now[p.Id]
 						if x == nil {
-							now[p.Id] = &rg{uint64(p.Len), uint64(p.Len)}
+							now[p.Id] = &rg{uint64(p.Len), uint64(p.Len), fmt.Sprintf("n%d ", m.idx)}
 						} else {
+							x.who += fmt.Sprintf("n%d ", m.idx)
 							if uint64(p.Len) < x.lo {
 								x.lo = uint64(p.Len)
 							}
@@ -1528,7 +1534,8 @@ func execC17(raw json.RawMessage, wantLog bool) (out Outcome) {
 					continue
 				}
 				legs0 := len(s.infoLegs)
-				loBefore, _, cntBefore := replicaRange()
+				_, _, cntBefore := replicaRange()
+				rangeBefore := lastRange
 				rpc0 := s.rpcCount["/anndb_pb.DataManager/PartitionInfo"]
 				h, _ := r.runRead(W3Op{K: "size", Node: n.idx})
 				remote := s.rpcCount["/anndb_pb.DataManager/PartitionInfo"] - rpc0
@@ -1562,8 +1569,16 @@ func execC17(raw json.RawMessage, wantLog bool) (out Outcome) {
 					// to that range, so a zero from it is below the range.
 					// (replicas only grow while they catch up: lower bound from before the call,
 					// upper bound from after it)
+					// A replica that is loaded DURING the call starts from nothing: a partition
+					// whose set of loaded replicas changed between the two observations has the
+					// lower bound 0.
 					_, hi, cnt := replicaRange()
-					lo := loBefore
+					var lo uint64
+					for pid, b := range rangeBefore {
+						if a := lastRange[pid]; a != nil && a.who == b.who {
+							lo += b.lo
+						}
+					}
 					if cnt == len(parts) && cntBefore == len(parts) && (got.n < lo || got.n > hi) {
 						r.viol("len/outside-the-range-of-the-replicas", "SizeInfo on n%d reports %d items; summing one loaded replica per partition gives between %d and %d", n.idx, got.n, lo, hi)
 					}
